@@ -61,6 +61,15 @@ Inductive selfcheck :=
 | SCPass2            (* unminimised candidate accepted *)
 | SCFail.            (* both rejected: plain alternation *)
 
+(* which recorded outcomes the code can produce at all: the check is skipped only when the
+   candidate contains surrogate escapes (which the regex crate rejects), i.e. only with f_sur;
+   and it is consulted only when both anchors are disabled *)
+Definition sc_admissible (c : cfg) (sc : selfcheck) : bool :=
+  match sc with
+  | SCSkipped => f_sur c
+  | _ => true
+  end.
+
 Inductive berr := EPanic | EFuel.
 
 Definition final_expr (c : cfg) (cls : list cluster) (sc : selfcheck) : option expr :=
